@@ -11,6 +11,7 @@ import (
 type reconfState struct {
 	lastIdx    map[string]int // proc|src|sess -> last record index processed
 	lastGen    map[string]int // proc|src|sess -> generation that processed it
+	openSeq    map[string]int // proc|gen -> event number at which that generation was opened
 	seen       map[string]bool
 	failedGens map[string]map[int]bool // proc -> generations whose open failed
 	appliedRev map[string]string
@@ -19,7 +20,7 @@ type reconfState struct {
 }
 
 func newReconfState() *reconfState {
-	return &reconfState{lastIdx: map[string]int{}, lastGen: map[string]int{}, seen: map[string]bool{}, failedGens: map[string]map[int]bool{}, appliedRev: map[string]string{}, inflight: map[string]int{}, tainted: map[string]bool{}}
+	return &reconfState{lastIdx: map[string]int{}, lastGen: map[string]int{}, openSeq: map[string]int{}, seen: map[string]bool{}, failedGens: map[string]map[int]bool{}, appliedRev: map[string]string{}, inflight: map[string]int{}, tainted: map[string]bool{}}
 }
 
 func (o *Oracles) onReconfEvent(w *World, e *Event) {
@@ -29,6 +30,9 @@ func (o *Oracles) onReconfEvent(w *World, e *Event) {
 	r := o.rc
 	switch e.Kind {
 	case "PROC_OPEN":
+		if e.OK {
+			r.openSeq[fmt.Sprintf("%s|%d", e.Ent, e.N)] = e.Seq
+		}
 		if !e.OK {
 			if r.failedGens[e.Ent] == nil {
 				r.failedGens[e.Ent] = map[int]bool{}
@@ -54,7 +58,9 @@ func (o *Oracles) onReconfEvent(w *World, e *Event) {
 				if id.Idx <= last {
 					w.violate("C13", "processing-out-of-order", fmt.Sprintf("%s processed record %s after record %d of the same source", e.Ent, id, last))
 				}
-				if e.N < r.lastGen[k] {
+				// "older" is decided by when a configuration was switched in, not by the number it
+				// got when it was built (overlapping requests are applied in the order they were staged)
+				if r.openSeq[fmt.Sprintf("%s|%d", e.Ent, e.N)] < r.openSeq[fmt.Sprintf("%s|%d", e.Ent, r.lastGen[k])] {
 					w.violate("C13", "old-configuration-after-new", fmt.Sprintf("%s processed record %s with generation %d after an earlier record was processed with generation %d", e.Ent, id, e.N, r.lastGen[k]))
 				}
 			}
